@@ -85,9 +85,10 @@ def enc_model_input(case):
     ntr = nc if axis0 else nr
     s = case["s"]
     svec = list(s) if isinstance(s, list) else [s] * ntr
-    inp = [1, axis0, nr, nc] + [int(v) for v in case["x"]] + enc_complex(twiddles(n))
+    inp = [1, axis0, nr, nc, len(svec)] + [int(v) for v in case["x"]] + enc_complex(twiddles(n))
     for si in svec:
-        inp += enc_complex(phase_table(n, si))
+        if n >= 2:
+            inp += enc_complex(phase_table(n, si))
     return inp
 
 
@@ -115,7 +116,7 @@ def gen_model_cases(ctx):
     """Small n: everything goes through the Q(i) model."""
     rng = ctx.rng
     cases = []
-    nmax = 13 if ctx.thorough() else 10
+    nmax = 20 if ctx.thorough() else 14
     reps = 6 if ctx.thorough() else 2
     for n in range(2, nmax + 1):
         for _ in range(reps):
@@ -140,6 +141,13 @@ def gen_model_cases(ctx):
                     else gen_shift(rng, n, skind)
                 cases.append({"shape": shape, "axis": axis, "dtype": rng.choice(["f64", "f32"]), "x": x,
                               "s": s, "skind": "per_trace" if per_trace else skind})
+    # malformed stream: the real code raises, the model refuses
+    cases.append({"shape": [1], "axis": -1, "dtype": "f64", "x": [5], "s": 1, "skind": "malformed"})
+    cases.append({"shape": [3, 1], "axis": -1, "dtype": "f64", "x": [5, 6, 7], "s": 0.5, "skind": "malformed"})
+    cases.append({"shape": [2, 4], "axis": -1, "dtype": "f64", "x": list(range(8)), "s": [1.0, 2.0, 3.0],
+                  "skind": "malformed"})
+    cases.append({"shape": [2, 4], "axis": 0, "dtype": "f64", "x": list(range(8)), "s": [1.0, 2.0],
+                  "skind": "malformed"})
     return cases
 
 
@@ -341,13 +349,21 @@ def oracle_n(ctx, st, n):
 def model_correspondence(ctx, st, cases):
     inputs, impl = [], []
     keep = []
+    malformed = []
     for c in cases:
         desc = {k: c[k] for k in ("shape", "axis", "dtype", "x", "s")}
         st.evals += 1
         try:
             x, x0, y = impl_fshift(c)
         except Exception as e:  # noqa
-            ctx.fail("fshift raised %r" % (e,), desc, {"kind": "exception"})
+            if c["skind"] == "malformed":
+                st.count("model_malformed_refused")
+                malformed.append((c, enc_model_input(c)))
+            else:
+                ctx.fail("fshift raised %r" % (e,), desc, {"kind": "exception"})
+            continue
+        if c["skind"] == "malformed":
+            ctx.disagree("fshift accepts an input the model refuses (n < 2 or wrong number of shifts)", desc)
             continue
         if not np.array_equal(x, x0):
             ctx.fail("real input array modified by fshift", desc, {"clause": "input_untouched"})
@@ -363,6 +379,9 @@ def model_correspondence(ctx, st, cases):
             st.nontrivial.add(("model", tuple(c["shape"]), c["axis"], c["dtype"], json.dumps(c["s"]), tuple(c["x"])))
     ex = common.Extracted(PROP, "Run")
     outs = ex.run_many(inputs, nproc=4)
+    for (c, inp), o in zip(malformed, ex.run_many([m[1] for m in malformed], nproc=1)):
+        if o != [0]:
+            ctx.disagree("model accepts an input on which fshift raises", {k: c[k] for k in ("shape", "axis", "x", "s")})
     for c, o, y in zip(keep, outs, impl):
         desc = {k: c[k] for k in ("shape", "axis", "dtype", "x", "s")}
         if not o or o[0] != 1 or len(o) != 1 + y.size:
@@ -394,8 +413,8 @@ def gen_parab(ctx):
     rng = ctx.rng
     out = []
     for ns in (1, 2, 3, 4, 5, 8, 33):
-        for _ in range(12 if ctx.thorough() else 5):
-            kind = rng.choice(["rand", "rand", "ties", "mono_up", "mono_down", "flat", "peak"])
+        for _ in range(24 if ctx.thorough() else 10):
+            kind = rng.choice(["rand", "rand", "ties", "mono_up", "mono_down", "flat", "peak", "peak", "peak"])
             if kind == "rand":
                 x = [rng.randrange(-50, 51) for _ in range(ns)]
             elif kind == "ties":
@@ -528,12 +547,12 @@ def measure_delay(ctx, st):
     ctx.measurements["wave_shift_corrmax_bounds"] = {"delay_error": 0.05, "residual": 0.02}
     # shift_waveform: a cluster of shifted copies is re-aligned onto the median template
     sp = ricker(121, 6.0)
-    shifts = np.linspace(-2, 2, 9)
+    shifts = np.linspace(-2, 2, 9) + 0.137
     st.evals += 1
     try:
         wav = np.stack([np.stack([fourier.fshift(sp * g, s) for g in (0.3, 1.0, 0.3)]) for s in shifts])
         out, applied = waveforms.shift_waveform(wav)
-        e1 = float(np.max(np.abs(applied - (-shifts))))
+        e1 = float(np.max(np.abs((applied - applied[4]) + (shifts - shifts[4]))))
         e2 = float(np.max(np.abs(out - out[4][None])) / np.max(np.abs(sp)))
         ctx.measurements["shift_waveform_max_abs_shift_error_samples"] = e1
         ctx.measurements["shift_waveform_max_residual_rel_peak"] = e2
@@ -546,11 +565,31 @@ def measure_delay(ctx, st):
 
 
 # --------------------------------------------------------------------------
+def roll_correspondence(ctx, st):
+    """np.roll (the oracle's reference) against the model's roll_list (the theorems' reference): exact."""
+    rng = ctx.rng
+    inputs, outs, descs = [], [], []
+    for n in list(range(1, 12)) + [rng.randrange(12, 200) for _ in range(20)]:
+        for m in {0, 1, -1, n, -n, n + 1, -n - 1, rng.randrange(-5 * n, 5 * n + 1), rng.randrange(-n, n + 1)}:
+            x = [rng.randrange(-1000, 1001) for _ in range(n)]
+            inputs.append([3, m, n] + x)
+            outs.append([int(v) for v in np.roll(np.array(x, dtype=np.int64), m)])
+            descs.append({"roll": True, "m": m, "x": x})
+            st.evals += 1
+            st.count("roll_model")
+    common.correspondence(ctx, PROP, HEADER, inputs, outs, lambda i: descs[i], n_kernel=30)
+
+
 def run(ctx):
     common.proof_obligations(ctx, whitelist=[])
     st = Stats()
     cases = gen_model_cases(ctx)
     kept = model_correspondence(ctx, st, cases)
+    kernel_fshift = ctx.coverage.get("model_evaluations_kernel", 0)
+    extracted_fshift = ctx.coverage.get("model_evaluations_extracted", 0)
+    roll_correspondence(ctx, st)
+    ctx.coverage["model_evaluations_kernel"] += kernel_fshift
+    ctx.coverage["model_evaluations_extracted"] += extracted_fshift
     parab_check(ctx, st)
     ns = n_values(ctx)
     for n in ns:
